@@ -61,7 +61,7 @@ def units(tier, seed):
     fam = schemas.mark_family_specs([("A", "B", "C"), ("C", "A", "B")])
     step = 32 if q else 6
     sel = fam[(seed % step)::step]
-    nb = 16
+    nb = 48
     for b in range(nb):
         out.append({"kind": "fmarks", "ids": [x[0] for x in sel[b::nb]], "size": 4, "name": f"fmarks#{b}/{nb}"})
     sel2 = fam[(seed % (step * 2))::(step * 2)]
